@@ -4,7 +4,7 @@
    either stores the converted value or fails and leaves the container as it was.  One container,
    a sequence of operations, the observation each returns. *)
 From Coq Require Import List ZArith String Bool Lia.
-From Anko Require Import Conv.Convert.
+From Anko Require Import Base.F64 Conv.Convert.
 Import ListNotations.
 Open Scope Z_scope.
 
@@ -90,7 +90,18 @@ Fixpoint append_conv (t : ty) (v : sval) {struct t} : option tval :=
                 | _ => None
                 end
   | TBool => match v with SNil => Some (zero t) | SBool b => Some (VBool b) | _ => None end
-  | TInt n s w => match v with SNil => Some (zero t) | SInt z => Some (VInt n s w (wrap s w z)) | _ => None end
+  | TInt n s w => match v with
+                  | SNil => Some (zero t)
+                  | SInt z => Some (VInt n s w (wrap s w z))
+                  | SFloat f => Some (VInt n s w (wrap s w (if s then F64.to_int f else to_u64 f)))
+                  | _ => None
+                  end
+  | TFloat n w => match v with
+                  | SNil => Some (zero t)
+                  | SInt z => Some (VFloat n w (narrow w (F64.of_int z)))
+                  | SFloat f => Some (VFloat n w (narrow w f))
+                  | _ => None
+                  end
   | TString => match v with SNil => Some (zero t) | SInt z => Some (VStr (utf8 z)) | SStr bs => Some (VStr bs) | _ => None end
   end.
 
